@@ -20,11 +20,12 @@ def pil_exporter(image, file_handle, extension="", **kwargs):
     # The extensions are only filled out when save or open are called - which
     # may not have been called before we reach here. So let's make sure that
     # pillow is properly initialised.
-    if not EXTENSION:
-        from PIL.Image import init, preinit
+    # (``EXTENSION`` being non-empty is not enough: ``open`` only registers
+    # the handful of pre-initialised plugins, ``init`` is idempotent.)
+    from PIL.Image import init, preinit
 
-        preinit()
-        init()
+    preinit()
+    init()
 
     pil_image = image.as_PILImage()
     # Also, the format kwarg of PIL/Pillow is a bit confusing and actually
